@@ -155,6 +155,39 @@ class Poly:
             e1, e2 = self.plus(e1, extra), self.plus(extra, e2)
         return e1, e2
 
+    def tied_sum_pair(self):
+        """Two sums of the same 2-4 monomials over the same two or three variables, the monomials differing in the power of ONE
+        variable only (x*x*y, x*y, x*x*x*y: equal powers elsewhere), added in two different orders."""
+        r = self.r
+        vs_ = r.sample(self.more_vars, r.choice([2, 2, 3]))
+        base_pows = [r.choice([1, 1, 2]) for _ in vs_]
+        which = r.randrange(len(vs_))
+        pows = r.sample([1, 2, 3, 4], r.choice([2, 3]))
+
+        def mono(p_):
+            fs = []
+            for k_, v in enumerate(vs_):
+                fs += [v] * (p_ if k_ == which else base_pows[k_])
+            if r.random() < 0.3:
+                r.shuffle(fs)
+            t = fs[0]
+            for f in fs[1:]:
+                t = self.times(t, f)
+            return t
+        ms = [mono(p_) for p_ in pows]
+        if r.random() < 0.4:
+            ms.append(self.expr(1))
+        m2 = list(ms)
+        while m2 == ms:
+            r.shuffle(m2)
+
+        def total(xs_):
+            t = xs_[0]
+            for u in xs_[1:]:
+                t = self.plus(t, u)
+            return t
+        return total(ms), total(m2)
+
     def rearrange(self, t, steps=6):
         """Value-preserving rearrangement: commutativity, associativity, distribution at random positions."""
         r = self.r
@@ -399,6 +432,8 @@ def run_check(tier, seed):
         for i in range(45 * scale):
             if i % 3 == 2:
                 e1, e2 = P.product_pair()
+            elif i % 6 == 1:
+                e1, e2 = P.tied_sum_pair()
             else:
                 e1 = P.expr(r.choice([1, 2, 3]))
                 e2 = P.rearrange(e1, r.choice([2, 4, 8]))
